@@ -1507,3 +1507,117 @@ func nameImplements(helper, base string) bool {
 	}
 	return true
 }
+
+// ---------------------------------------------------------------- E-TIES
+
+func init() {
+	register(&Rule{ID: "E-TIES", Props: []string{"C13", "C02"}, Floor: 2,
+		Doc: "max_by and min_by, by interpretation on a symbolic array of two elements with the three-way comparison of their keys as one unknown in {-1,0,1}: the second element is returned only on paths that establish that its key is strictly greater (max_by) or strictly smaller (min_by) than the first one's, and the first element only on paths that establish it is not: among equal keys the first element wins, whatever the source form (two functions, one function with a mode, a collector)",
+		Run: ruleETies})
+}
+
+func ruleETies(p *Program, r *Reporter) {
+	d := newValDom(p)
+	if d.why != "" {
+		r.Unknown(token.NoPos, "evaluator model", d.why)
+		return
+	}
+	d.toDecimal = numericRoles(p).toDecimal
+	for _, job := range []struct {
+		name string
+		sign int64 // the sign ord(key1,key0) must have for element 1 to win
+	}{{"arrayMaxBy", 1}, {"arrayMinBy", -1}} {
+		fn := p.Func(p.Eval, "evaluator", job.name)
+		if fn == nil {
+			r.Unknown(token.NoPos, "evaluator."+job.name, "helper not found")
+			continue
+		}
+		key := "evaluator." + job.name + " ties"
+		vr, why := d.run(fn, 3, nil)
+		if why != "" {
+			r.Unknown(fn.Pos(), key, why)
+			continue
+		}
+		checked := 0
+		bad := ""
+		var badPos token.Pos
+		for _, o := range vr.outs {
+			if o.Cut || o.Panic || o.Ret == nil || len(o.Res) == 0 || (vr.errIdx >= 0 && !isDefNil(o.Res[vr.errIdx])) {
+				continue
+			}
+			res, ok := o.Res[0].(avSym)
+			if !ok || res.tag != "elem" {
+				continue
+			}
+			// the two keys: results of the evaluations against elements 0 and 1
+			keys := map[string]AV{}
+			for _, ev := range o.St.Trace {
+				if ev.Kind == "eval" {
+					if c, ok := ev.Args[1].(avSym); ok && c.tag == "elem" {
+						keys[avKey(c)] = ev.Res[0]
+					}
+				}
+			}
+			if len(keys) != 2 {
+				continue
+			}
+			t, _ := res.payload.(avTuple)
+			if len(t) != 2 {
+				continue
+			}
+			which, _ := o.St.KnownInt(t[1])
+			e0, e1 := elemSym(t[0], 0), elemSym(t[0], 1)
+			k0, k1 := keys[avKey(e0)], keys[avKey(e1)]
+			if k0 == nil || k1 == nil {
+				continue
+			}
+			// the ordering symbol of the two keys, in whichever form the path compared them (strings or decimals)
+			lo, hi, found := int64(-1), int64(1), false
+			for _, wrap := range []func(AV) AV{
+				func(v AV) AV { return avSym{tag: "dec", payload: v} },
+				func(v AV) AV { return avSym{tag: "asserted:string", payload: v} },
+			} {
+				a, b := wrap(k1), wrap(k0)
+				for _, flip := range []bool{false, true} {
+					x, y := a, b
+					if flip {
+						x, y = b, a
+					}
+					if avKey(y) < avKey(x) {
+						continue // ord is kept with its arguments in key order
+					}
+					sy := avSym{tag: "ord", payload: avTuple{x, y}}
+					if f := o.St.ints[o.St.idOf(sy)]; f != nil {
+						found = true
+						if flip { // the symbol is ord(k0,k1): ord(k1,k0) is its negation
+							lo, hi = -f.hi, -f.lo
+						} else {
+							lo, hi = f.lo, f.hi
+						}
+					}
+				}
+			}
+			if !found {
+				continue
+			}
+			checked++
+			s := job.sign
+			strictlyBetter := (s > 0 && lo >= 1) || (s < 0 && hi <= -1)
+			notBetter := (s > 0 && hi <= 0) || (s < 0 && lo >= 0)
+			switch {
+			case which == 1 && !strictlyBetter:
+				bad, badPos = fmt.Sprintf("the second element is returned on a path where the comparison of its key with the first one's is only known to lie in [%d,%d]: equal keys let the later element win", lo, hi), o.Ret.Pos()
+			case which == 0 && !notBetter:
+				bad, badPos = fmt.Sprintf("the first element is returned on a path where the comparison of the second key with the first is only known to lie in [%d,%d]: a strictly better later element is passed over", lo, hi), o.Ret.Pos()
+			}
+		}
+		switch {
+		case bad != "":
+			r.Bad(badPos, key, bad)
+		case checked == 0:
+			r.Unknown(fn.Pos(), key, "no path over two elements compares their keys")
+		default:
+			r.OK(fn.Pos(), key, fmt.Sprintf("%d paths over two elements: the later element wins exactly under a strict comparison of the keys", checked))
+		}
+	}
+}
